@@ -749,7 +749,7 @@ impl KotoIterator for ByteIterator {
     fn next_back(&mut self) -> Option<KIteratorOutput> {
         if self.end > self.index {
             self.end -= 1;
-            let result = (self.bytes)[self.index];
+            let result = (self.bytes)[self.end];
             Some(result.into())
         } else {
             None
@@ -771,7 +771,7 @@ impl Iterator for ByteIterator {
     }
 
     fn size_hint(&self) -> (usize, Option<usize>) {
-        let remaining = self.bytes.len().saturating_sub(self.index);
+        let remaining = self.end.saturating_sub(self.index);
         (remaining, Some(remaining))
     }
 }
